@@ -84,6 +84,9 @@ fn loop_sig(m: &c15::Mismatch, ctx: &ff::ProbeCtx) -> String {
     match m.origin.in_loop {
         // the value was assigned inside a loop body (kind = the outermost loop around the assignment)
         // and is seen after that loop; a `never` here is the same loss followed by a guard
+        // `while true`: a value first assigned in a later iteration is lost for want of back edges (the known cause);
+        // one assigned on the first pass through the body is not explained by that
+        Some(LoopKind::WhileTrue) => format!("postloop:while-true:body-assign-lost:{}", if m.origin.first_pass { "assigned-on-first-pass" } else { "assigned-in-later-iteration-only" }),
         Some(kind) => format!("postloop:{}:body-assign-lost", kind.name()),
         None => {
             // the value was assigned outside every loop: the type after the loop lost it
